@@ -73,9 +73,24 @@ fn finish<T, U>(e: Ended<(Result<T, Vec<DecodeError>>, usize)>, log: Option<Rc<R
     }
 }
 
+/// The input in its own exact-size heap block; for about half of the inputs (chosen by content)
+/// the block has one extra leading octet and the input starts at offset 1, i.e. at an odd address:
+/// nothing may depend on where in memory the octets live.
+fn placed(b: &[u8]) -> (Box<[u8]>, usize) {
+    let h = b.iter().fold(b.len() as u32, |a, x| a.wrapping_mul(31).wrapping_add(*x as u32));
+    let shift = ((h >> 3) & 1) as usize;
+    let mut v = Vec::with_capacity(b.len() + shift);
+    if shift == 1 {
+        v.push(0xee);
+    }
+    v.extend_from_slice(b);
+    (v.into_boxed_slice(), shift)
+}
+
 /// `Message::try_read_validate` (or `try_read` when `o` is `None`) through the chosen reader.
 pub fn decode_msg(b: &[u8], o: Option<SOpts>, rk: Rk) -> Run<SMsg> {
-    let boxed: Box<[u8]> = b.into();
+    let (placed_box, shift) = placed(b);
+    let boxed: &[u8] = &placed_box[shift..];
     match rk {
         Rk::Slice => {
             let e = catch(|| {
@@ -162,7 +177,8 @@ fn conv_list(v: Vec<DecodeResult<AVP>>) -> AvpList {
 
 /// `AVP::try_read_greedy`
 pub fn decode_avps(b: &[u8], rk: Rk) -> Run<AvpList> {
-    let boxed: Box<[u8]> = b.into();
+    let (placed_box, shift) = placed(b);
+    let boxed: &[u8] = &placed_box[shift..];
     let rk = match rk {
         Rk::Reentrant(_) | Rk::VirtualTail(_) => Rk::ContractVec,
         k => k,
@@ -261,7 +277,8 @@ pub fn decode_type(attr: u16, payload: &[u8], rk: Rk) -> Option<Run<SAvp>> {
     if !(attr <= 38 && attr != 20) {
         return None;
     }
-    let boxed: Box<[u8]> = payload.into();
+    let (placed_box, shift) = placed(payload);
+    let boxed: &[u8] = &placed_box[shift..];
     let one = |r: Result<AVP, DecodeError>| r.map(|a| glue::avp_to_spec(&a)).map_err(|e| vec![e]);
     let rk = match rk {
         Rk::Reentrant(_) | Rk::VirtualTail(_) => Rk::ContractVec,
